@@ -97,6 +97,7 @@ pub struct Unit {
     pub unit_types: Vec<String>,
     pub methodfn: Vec<(String, String)>,
     pub pathrename: Vec<(String, String)>,
+    pub methodval: Vec<(String, String)>,
     pub strlits: bool,
 }
 
@@ -339,6 +340,7 @@ pub fn parse_unit(text: &str) -> Unit {
             "methodfn" => u.methodfn.push((words[0].clone(), words[1].clone())),
             "pathrename" => u.pathrename.push((words[0].clone(), words[1].clone())),
             "strlits" => u.strlits = true,
+            "methodval" => u.methodval.push((words[0].clone(), words[1].clone())),
             "poolcall" => u.poolcall.push((words[0].clone(), words[1].clone(), words[2].clone())),
             "lockinv" => u.lockinv.push((words[0].clone(), words[1..].join(" "))),
             "verbatim" => u.verbatim.push((variants, block_text(&body))),
